@@ -161,8 +161,15 @@ impl<T, S: NodeState> Node<T, S> {
                     continue;
                 }
 
+                let value = match std::str::from_utf8(segment) {
+                    Ok(value) => value,
+                    _ => {
+                        continue;
+                    }
+                };
+
                 let mut current_parameters = parameters.clone();
-                current_parameters.push((&child.state.name, std::str::from_utf8(segment).ok()?));
+                current_parameters.push((&child.state.name, value));
 
                 let data =
                     match child.search(&path[consumed..], &mut current_parameters, constraints) {
@@ -240,8 +247,15 @@ impl<T, S: NodeState> Node<T, S> {
 
                 let segment = &path[..consumed];
 
+                let value = match std::str::from_utf8(segment) {
+                    Ok(value) => value,
+                    _ => {
+                        continue;
+                    }
+                };
+
                 let mut current_parameters = parameters.clone();
-                current_parameters.push((&child.state.name, std::str::from_utf8(segment).ok()?));
+                current_parameters.push((&child.state.name, value));
 
                 let data =
                     match child.search(&path[consumed..], &mut current_parameters, constraints) {
@@ -352,8 +366,15 @@ impl<T, S: NodeState> Node<T, S> {
                     continue;
                 }
 
+                let value = match std::str::from_utf8(segment) {
+                    Ok(value) => value,
+                    _ => {
+                        continue;
+                    }
+                };
+
                 let mut current_parameters = parameters.clone();
-                current_parameters.push((&child.state.name, std::str::from_utf8(segment).ok()?));
+                current_parameters.push((&child.state.name, value));
 
                 let data =
                     match child.search(&path[consumed..], &mut current_parameters, constraints) {
@@ -457,8 +478,15 @@ impl<T, S: NodeState> Node<T, S> {
 
                 let segment = &path[..consumed];
 
+                let value = match std::str::from_utf8(segment) {
+                    Ok(value) => value,
+                    _ => {
+                        continue;
+                    }
+                };
+
                 let mut current_parameters = parameters.clone();
-                current_parameters.push((&child.state.name, std::str::from_utf8(segment).ok()?));
+                current_parameters.push((&child.state.name, value));
 
                 let data =
                     match child.search(&path[consumed..], &mut current_parameters, constraints) {
